@@ -396,7 +396,58 @@ EXTRACT_CORPUS = [
     # pure code: the observable behaviour is the final value of `result`
     "def f(a, b):\n    c = (a + b) * 2\n    d = [a, b][0] - c\n    return c if d else -d\n\nresult = f(1, 2) + f(3, 4)\n",
     "x = 5\ny = {'k': x}['k'] ** 2\nresult = (x, -y + 1, not x or y)\n",
+    "a = 2\nb = 3\nc = 0\nr1 = a and b or c\nr2 = a if b else c\nr3 = (not a, a in (b, a))\nr4 = a < b <= c\n"
+    "r5 = -a ** 2 + a * b\nr6 = a - b - c\nresult = (r1, r2, r3, r4, r5, r6)\n",
+    "def g(p, q=1, *r, **s):\n    return (p, q, r, sorted(s))\nd = {'k': [1, 2, 3]}\nr1 = g(1, q=2)\nr2 = g(*d['k'])\n"
+    "r3 = d['k'][1:][0]\nr4 = d.get('k')[0]\nr5 = [i * 2 for i in d['k'] if i]\nr6 = (lambda z: z + 1)(2)\n"
+    "result = (r1, r2, r3, r4, r5, r6)\n",
 ]
+
+
+def selection_regions(nodes):
+    """which recorded defect region (if any) a normalised selection falls into - decided from the selected nodes only"""
+    last = nodes[-1]
+    ends_on_operator = X._is_not_extractable_syntax(last)
+    n0 = nodes[0]
+    not_an_expression = False
+    if len(nodes) == 1 and n0.type == 'name':
+        par = n0.parent
+        if par.type == 'argument' and par.children[0] is n0 and len(par.children) > 1 and par.children[1] == '=':
+            not_an_expression = True
+        if par.type == 'trailer' and par.children[0] == '.':
+            not_an_expression = True
+    # names bound inside the statement itself (comprehension variables, lambda parameters)
+    inner_bound = False
+    stmt = n0
+    while stmt.parent is not None and stmt.parent.type not in ('suite', 'file_input'):
+        stmt = stmt.parent
+    bound = set()
+    todo = [stmt]
+    while todo:
+        n = todo.pop()
+        if n.type in ('sync_comp_for', 'comp_for'):
+            target = n.children[1]
+            bound.update(l.value for l in ([target] if target.type == 'name' else _leaves(target)) if l.type == 'name')
+        if n.type == 'lambdef':
+            for ch in n.children[1:]:
+                if ch == ':':
+                    break
+                bound.update(l.value for l in _leaves(ch) if l.type == 'name')
+        todo.extend(getattr(n, 'children', []))
+    for node in nodes:
+        for l in _leaves(node):
+            if l.type == 'name' and l.value in bound:
+                inner_bound = True
+    return ends_on_operator, not_an_expression, inner_bound
+
+
+def _leaves(node):
+    if not hasattr(node, 'children'):
+        return [node]
+    out = []
+    for ch in node.children:
+        out.extend(_leaves(ch))
+    return out
 
 
 def run_result(code):
@@ -419,6 +470,16 @@ def judge_program(original, new_code):
     return ('ok', None) if got == want else ('different-result', (want, got))
 
 
+_SCRIPTS = {}
+
+
+def _script_for(i):
+    """one Script per corpus file and process: the refactorings do not modify the tree"""
+    if i not in _SCRIPTS:
+        _SCRIPTS[i] = _jedi.Script(EXTRACT_CORPUS[i], path='/virtual/m.py', project=_jedi.Project('/virtual'))
+    return _SCRIPTS[i]
+
+
 class C06c(Obligation):
     id = 'C06.c'
     title = 'extract_variable over EVERY selection of a program: refused with RefactoringError, or the result compiles and computes the same'
@@ -428,33 +489,50 @@ class C06c(Obligation):
     max_paths = 20000
     assumptions = (
         'corpus of side-effect-free programs parsed natively; the selection (line, column)..(until_line, until_column) is '
-        'symbolic within the text (start <= end), or only a cursor is given (no end); the selection normalisation '
+        'symbolic within the text (start <= end, the end on the same or the next line), or only a cursor is given (no end); the selection normalisation '
         '(_find_nodes, _remove_unwanted_expression_nodes, parso.get_leaf_for_position) is interpreted, so the solver '
         'partitions the selection space into the regions the code distinguishes; per region the refactoring is built and '
         'both programs are compiled and executed (CPython trusted)',
     )
     findings = {
-        'C06-extract-splits-call': 'a selection that ends inside the callee/attribute chain of an operand (f(1) + f|(2)) is extracted across the operator',
+        'C06-extract-ends-on-operator': 'a range that ends directly behind a binary operator of a chain (a - b -| c) extracts text ending in the operator',
+        'C06-extract-not-an-expression': 'a keyword-argument name (g(q=2)) or an attribute name (d.get) is extracted as if it were a variable',
+        'C06-extract-inner-binding': 'an expression using a comprehension variable or lambda parameter is moved out of the scope that binds it',
     }
 
     def configs(self, tier):
+        # with an end: one job per start line and band of start columns (the selection may run on into the next line)
+        def bands(i, l):
+            width = len(EXTRACT_CORPUS[i].split('\n')[l - 1]) + 1
+            step = 6
+            return [dict(file=i, end=True, line=l, lo=lo, hi=min(lo + step, width)) for lo in range(0, width, step)]
+        if tier == 'quick':
+            return [dict(file=0, end=False, line=None), dict(file=1, end=False, line=None)] + \
+                bands(0, 3) + bands(0, 6) + bands(1, 3)
         out = []
         for i in range(len(EXTRACT_CORPUS)):
-            out.append(dict(file=i, end=False))
-            out.append(dict(file=i, end=True))
+            n_lines = EXTRACT_CORPUS[i].count('\n')
+            out.append(dict(file=i, end=False, line=None))
+            for l in range(1, n_lines + 1):
+                out.extend(bands(i, l))
         return out
 
     def scenario(self, ctx, cfg):
         src = EXTRACT_CORPUS[cfg['file']]
-        script = _jedi.Script(src, path='/virtual/m.py')
+        script = _script_for(cfg['file'])
         lines = src.split('\n')
         K = len(lines) - 1
         line = ctx.int('line', 1, K)
+        if cfg['line'] is not None:
+            ctx.assume(line == cfg['line'])
         column = ctx.int('column', 0)
         ctx.assume(column <= len(lines[line - 1]))
+        if cfg.get('lo') is not None:
+            ctx.assume(ctx.And(column >= cfg['lo'], column < cfg['hi']))
         until = None
         if cfg['end']:
             until_line = ctx.int('until_line', 1, K)
+            ctx.assume(until_line <= line + 1)
             until_column = ctx.int('until_column', 0)
             ctx.assume(until_column <= len(lines[until_line - 1]))
             ctx.assume(ctx.Or(until_line > line, ctx.And(until_line == line, until_column >= column)))
@@ -466,8 +544,63 @@ class C06c(Obligation):
         new_code = out.value.get_changed_files()[script.path].get_new_code()
         verdict = judge_program(src, new_code)
         ctx.observe((verdict[0], new_code), 'result')
-        ctx.check(verdict[0] != 'does-not-compile', 'the refactored program compiles')
-        ctx.check(verdict[0] in ('ok', 'does-not-compile'), 'and computes the same result')
+        nodes = ctx.run(X._find_nodes, script._module_node, (line, column), until)
+        ends_on_operator, not_an_expression, inner_bound = selection_regions(nodes)
+        ctx.check(verdict[0] != 'does-not-compile', 'the refactored program compiles',
+                  known={'C06-extract-ends-on-operator': ends_on_operator})
+        ctx.check(verdict[0] in ('ok', 'does-not-compile'), 'and computes the same result',
+                  known={'C06-extract-not-an-expression': not_an_expression, 'C06-extract-inner-binding': inner_bound})
 
 
-OBLIGATIONS = [C06a, C06b, C06d, C06f, C06g, C06h, C06i, C06c]
+class C06e(C06c):
+    id = 'C06.e'
+    title = 'extract_function over EVERY selection: only RefactoringError escapes; for a selection that is an expression the result compiles and computes the same'
+    findings = dict(C06c.findings)
+    findings['C06-extract-function-statement-range'] = 'ranges over statements that do not coincide with whole statements yield code that does not compile or fails'
+
+    def configs(self, tier):
+        base = C06c.configs(self, tier)
+        if tier == 'quick':
+            return [c for c in base if not c['end'] or (c['file'] == 0 and c['line'] == 6)]
+        return base
+
+    def scenario(self, ctx, cfg):
+        src = EXTRACT_CORPUS[cfg['file']]
+        script = _script_for(cfg['file'])
+        lines = src.split('\n')
+        K = len(lines) - 1
+        line = ctx.int('line', 1, K)
+        if cfg['line'] is not None:
+            ctx.assume(line == cfg['line'])
+        column = ctx.int('column', 0)
+        ctx.assume(column <= len(lines[line - 1]))
+        if cfg.get('lo') is not None:
+            ctx.assume(ctx.And(column >= cfg['lo'], column < cfg['hi']))
+        until = None
+        if cfg['end']:
+            until_line = ctx.int('until_line', 1, K)
+            ctx.assume(until_line <= line + 1)
+            until_column = ctx.int('until_column', 0)
+            ctx.assume(until_column <= len(lines[until_line - 1]))
+            ctx.assume(ctx.Or(until_line > line, ctx.And(until_line == line, until_column >= column)))
+            until = (until_line, until_column)
+        out = ctx.call(X.extract_function, script._inference_state, script.path, script._get_module_context(), 'nv',
+                       (line, column), until)
+        if out.exc is not None:
+            ctx.check(out.raised(RefactoringError), 'a selection that cannot be extracted is refused with RefactoringError, nothing else')
+            return
+        new_code = out.value.get_changed_files()[script.path].get_new_code()
+        verdict = judge_program(src, new_code)
+        ctx.observe((verdict[0], new_code), 'result')
+        nodes = ctx.run(X._find_nodes, script._module_node, (line, column), until)
+        statements = not X._is_expression_with_error(nodes)[0]
+        ends_on_operator, not_an_expression, inner_bound = selection_regions(nodes)
+        ctx.check(verdict[0] != 'does-not-compile', 'the refactored program compiles',
+                  known={'C06-extract-ends-on-operator': ends_on_operator, 'C06-extract-not-an-expression': not_an_expression,
+                         'C06-extract-function-statement-range': statements})
+        ctx.check(verdict[0] in ('ok', 'does-not-compile'), 'and computes the same result',
+                  known={'C06-extract-not-an-expression': not_an_expression, 'C06-extract-inner-binding': inner_bound,
+                         'C06-extract-function-statement-range': statements})
+
+
+OBLIGATIONS = [C06a, C06b, C06d, C06f, C06g, C06h, C06i, C06c, C06e]
